@@ -126,7 +126,11 @@ def run_case(ctx, kind, rng, idx):
         if 'rpop' in out:
             rp = np.asarray(out['rpop'], dtype=float).reshape(-1)
             dens = pi * q * (1 - q)
-            if dens.sum() > 0:
+            # all intermediates have committor 0 or 1 (up to rounding):
+            # the reactive density is 0/0, nothing to compare
+            if dens.sum() <= 1e-12:
+                ctx.count('ambiguous_zero_reactive_density')
+            else:
                 exp = dens / dens.sum()
                 if rp.shape != (n,) or np.abs(rp - exp).max() > 1e-9 or \
                         np.any(rp < -1e-12) or abs(rp.sum() - 1) > 1e-9 or \
